@@ -130,12 +130,25 @@ def runModel (c : Case) : Except String Result :=
 def prop (c : Case) : Option String := Id.run do
   let st := c.p "status"
   if st ≠ "ok" then
+    let fmt := fmtTag c
     let what := if st == "memerr" then s!"memory error: {c.str "diag"}"
       else if st == "hang" then "the reader does not terminate"
       else if st.startsWith "exit" then s!"the reader refuses the file ({st})"
       else if st == "abort" then s!"the reader aborts: {c.str "diag"}"
       else s!"the reader failed ({st})"
-    return some s!"well-formed file, {encOf c}: {what}"
+    -- the head of the message names the trait of the file that (by the model) is legal, so that equal
+    -- defects share one signature; details follow
+    let trait :=
+      if (fmt == "hb" || fmt == "rb") && st == "hang" && c.p "pform" == "sP," then
+        "fixed-format value descriptor with a comma after the scale factor, as in (1P,3E10.3)"
+      else if fmt == "mm" && c.isComplex && st.startsWith "exit" && c.p "hdr" == "std" then
+        "complex Matrix Market file (header 'complex')"
+      else if fmt == "mm" && st == "memerr" && c.pNat "longtok" > 0 then
+        "Matrix Market comment line with a token of 64 or more characters"
+      else if c.p "sym" == "1" && c.p "diag" ≠ "all" && st == "memerr" then
+        "symmetric file without all diagonal entries"
+      else "well-formed file"
+    return some s!"{trait}: {what} [{encOf c} valfmt={c.p "valfmt"}]"
   let dbl := c.isDouble
   let vpe := if c.isComplex then 2 else 1
   let md := c.int "M.dims"; let rd := c.int "R.dims"
